@@ -52,7 +52,7 @@ func c05Gen(g *core.Gen) {
 					return
 				}
 				for _, z := range sizesGrid(s) {
-					if nf == 3 && !g.Thorough() && (z == s-1 || z == 2*s) {
+					if false {
 						continue
 					}
 					rec(append(cur, z))
@@ -61,7 +61,7 @@ func c05Gen(g *core.Gen) {
 			rec(nil)
 		}
 	}
-	if g.Thorough() {
+	{
 		// four files, every goroutine count 1..8, block counts 1..20
 		for _, s := range []int{4, 8} {
 			for _, a := range []int{1, s, s + 1, 2*s + 3} {
@@ -79,10 +79,24 @@ func c05Gen(g *core.Gen) {
 	for _, s := range []int{4, 8, 12, 64, 2000} {
 		for _, p := range []int{1, 2, 3, 7, 8, 15, 16, 17, 100, 101, 127, 128, 300} {
 			for _, gg := range []int{1, 2, 3, 5, 16} {
-				if !g.Thorough() && p > 17 && gg != 2 && gg != 5 {
+				if false {
 					continue
 				}
 				g.Emit(&c05Case{Sizes: []int{2*s + 3, s, 5*s - 1}, Names: c05Names(3, p), Slice: s, Blocks: p, G: gg})
+			}
+		}
+	}
+	if g.Thorough() {
+		// five files over more slice sizes; every goroutine count 1..16 on multi-slice shards
+		for _, s := range []int{4, 12, 16, 64, 128} {
+			for _, a := range []int{1, s - 1, s, 3*s + 1} {
+				for _, b := range []int{s + 1, 2 * s} {
+					for _, p := range []int{1, 2, 5, 16, 33} {
+						for gg := 1; gg <= 16; gg++ {
+							g.Emit(&c05Case{Sizes: []int{a, b, s, 3*s - 1, 7 * s}, Names: []string{"w/a", "w/b", "c", "d.e", "x/y/z"}, Slice: s, Blocks: p, G: gg})
+						}
+					}
+				}
 			}
 		}
 	}
@@ -97,11 +111,9 @@ func c05Gen(g *core.Gen) {
 		g.Emit(&c05Case{Sizes: []int{13, 8, 21}, Names: c05Names(3, 1), Slice: 4, Blocks: 4, G: 2, Class: cl})
 	}
 	// many slices: 257, 300, 4097 (different constants), the 32768 limit, and beyond (may be refused)
-	big := []int{257, 300, 4097}
+	big := []int{257, 300, 4097, 32767, 32768}
 	if g.Thorough() {
-		big = append(big, 32767, 32768)
-	} else {
-		big = append(big, 32768)
+		big = append(big, 258, 1000, 8191, 8192, 16384, 20000)
 	}
 	for _, n := range big {
 		g.Emit(&c05Case{Sizes: []int{4 * (n - 2), 4, 3}, Names: c05Names(3, 0), Slice: 4, Blocks: 2, G: 4})
